@@ -419,6 +419,9 @@ PROPS["C17"] = dict(
             dict(_my, harness="VerifHarness_C17_mysql", reach=["reverse"]),
             dict(_pg, harness="VerifHarness_C17_postgres", reach=["reverse"]),
             dict(_lt, harness="VerifHarness_C17_sqlite", reach=["reverse", "irreversible"]),
+            dict(_my, harness="VerifHarness_C17_mysql_restore", reach=["reversible"]),
+            dict(_pg, harness="VerifHarness_C17_postgres_restore", reach=["reversible"]),
+            dict(_lt, harness="VerifHarness_C17_sqlite_restore", reach=["reversible"]),
         ],
         "thorough": [
             dict(_st, harness="VerifHarness_C17_files2", reach=["reversible", "irreversible"]),
@@ -426,12 +429,17 @@ PROPS["C17"] = dict(
             dict(_my, harness="VerifHarness_C17_mysql", reach=["reverse"]),
             dict(_pg, harness="VerifHarness_C17_postgres", reach=["reverse"]),
             dict(_lt, harness="VerifHarness_C17_sqlite", reach=["reverse", "irreversible"]),
+            dict(_my, harness="VerifHarness_C17_mysql_restore", reach=["reversible"]),
+            dict(_pg, harness="VerifHarness_C17_postgres_restore", reach=["reversible"]),
+            dict(_lt, harness="VerifHarness_C17_sqlite_restore", reach=["reversible"]),
         ],
     },
     bounds={
         "quick": "plans of 1..2 changes whose Reverse is nil / a string / an empty list / 1 or 2 statements with one symbolic byte each "
                  "(letters, digits, space, underscore, comma), optional comments, x {golang-migrate, goose, flyway, dbmate} formatters; planner plans: "
-                 "8 change sets per dialect (MySQL, PostgreSQL, SQLite)",
+                 "8 change sets per dialect (MySQL, PostgreSQL, SQLite); restore content: drop table / drop index / change default / drop check / drop "
+                 "foreign key / drop column+index of a table whose default, index predicate and check expression are 2-digit solver-chosen markers "
+                 "and whose index is unique / descending / partial and column nullable by symbolic booleans (SQLite: the first three sets)",
         "thorough": "same with up to 3 changes",
     },
     assumptions=[
@@ -444,7 +452,9 @@ PROPS["C17"] = dict(
     claim="For every plan within the bounds, Plan.Reversible is set iff every change yields at least one reverse statement, and the down file or "
           "section written by each formatter scans to exactly the reverse statements of the changes in reverse order; for the planner catalogue every "
           "reverse statement is the structural inverse of its forward statement (create/drop table, add/drop column, index, constraint) and a plan with an "
-          "unreversed change (SQLite rebuild) is not reported reversible.",
+          "unreversed change (SQLite rebuild) is not reported reversible; the reverse of a destructive change mentions everything that defined the "
+          "dropped object (index uniqueness, columns in order, direction, predicate; column type, nullability, default; check name and expression; "
+          "foreign-key reference and action).",
     note="Flag and down-file slice of C17; bounded. Trusted: template evaluator, engine, z3, the keyword-level inverse table in the harness.",
 )
 
